@@ -945,6 +945,38 @@ func (e *env) modelOp(lib common.BeaconState, cur loc, pre any, leaf *Row, rest 
 			}
 			return nil, pre, true
 		}
+	case "SetRecentRoots":
+		if h := needArgs(rest, 3); h != "" {
+			r.harness = h
+			return
+		}
+		r.mutates = true
+		br, err1 := rest[1].value(b32T)
+		sr, err2 := rest[2].value(b32T)
+		if err1 != nil || err2 != nil {
+			r.harness = "bad root argument"
+			return
+		}
+		bt, bv, bi := e.field(pre, "block_roots")
+		_, sv, si := e.field(pre, "state_roots")
+		slot := rest[0].U
+		at := int(slot % uint64(bt.N))
+		r.post = setAt(e.stateT, setAt(e.stateT, pre, []int{bi, at}, br), []int{si, at}, sr)
+		r.targets = []string{".block_roots", ".state_roots"}
+		r.direct = func() (*report.Failure, any, bool) {
+			var err error
+			if f := report.Guard("panic", func() *report.Failure {
+				err = common.SetRecentRoots(e.spec, lib, common.Slot(slot), common.Root(refssz.Serialize(b32T, br)), common.Root(refssz.Serialize(b32T, sr)))
+				return nil
+			}); f != nil {
+				return f, pre, false
+			}
+			if err != nil {
+				return report.Failf("unexpected-error", "SetRecentRoots(%d): %v", slot, err), pre, false
+			}
+			nb := (at + 1) % int(bt.N)
+			return nil, r.post, !eqVal(b32T, bv.([]any)[at], br) && !eqVal(b32T, sv.([]any)[at], sr) && !eqVal(b32T, bv.([]any)[nb], br) && !eqVal(b32T, br, sr)
+		}
 	case "RotatePendingAttestations":
 		r.mutates = true
 		_, cv, ci := e.field(pre, "current_epoch_attestations")
